@@ -11,6 +11,8 @@ mod runner;
 mod dump;
 #[path = "../gen_arith.rs"]
 mod gen_arith;
+#[path = "../gen_units.rs"]
+mod gen_units;
 
 fn main() {
     let args: Vec<String> = std::env::args().collect();
@@ -26,6 +28,10 @@ fn main() {
         "eval-worker" => evalsess::worker(),
         "eval-run" => runner::run(&opts),
         "gen-c01" => gen_arith::run(&opts),
+        "gen-c02" => gen_units::run_c02(&opts),
+        "gen-c03" => gen_units::run_c03(&opts),
+        "gen-c09" => gen_units::run_c09(&opts),
+        "gen-c10" => gen_units::run_c10(&opts),
         "encode" => {
             // encode plain-text query lines (stdin) as request lines
             use std::io::BufRead;
